@@ -17,11 +17,11 @@ func init() {
 	register("C17", "other", []string{
 		"decides: on the COMP_LINE edge of Parse every path to a return passes exitFn and prints the joined candidate list to the completion writer; no CommandFn is reachable from the parser or from that edge; every candidate list returned is sorted with no later append; every candidate that comes from the option / command tables or the static suggestions is appended under a HasPrefix(candidate, typed) test against the cursor's own tables, and every key passing the test is appended",
 		"not decided: equality of the candidate set with the specification for value completion, and that every offered candidate is accepted by the parser",
-	}, rC17Exit, rC17NoCommand, rC17Sorted, rC17Candidates)
+	}, rC17Exit, rC17NoCommand, rC17Sorted, rC17Candidates, rC17Sections)
 	register("C18", "other", []string{
 		"decides: every switch over the option kind in help rendering is total (or has a default); the option list is built from the node's table with the alias filter only; the required/normal partition is total and both parts are rendered; all help routes use the one renderer on the node; the command list hides only the help command; defaults and environment variables are shown; the per-option synopsis is recomputed after every change of the fields it derives from and lists every alias",
 		"layout, wrapping at 80 columns and multi-line descriptions are not decided",
-	}, rC18Switches, rC18OptionList, rC18Partition, rC18Routes, rC18Commands, rC18Fields, rC18Freshness)
+	}, rC18Switches, rC18OptionList, rC18Partition, rC18Routes, rC18Commands, rC18Fields, rC18Freshness, rC18SynopsisArms, rC18Args)
 }
 
 // ------------------------------------------------------------------ C17
@@ -848,6 +848,16 @@ func rC18Freshness(w *World, r *Report) {
 				ru.Check(ok, key, w.IPos(u.Instr), "New computes the synopsis last", "option.New can return without computing the synopsis")
 				continue
 			}
+			if name == "Aliases" {
+				st := u.Instr.(*ssa.Store)
+				grows := false
+				if c, ok := st.Val.(*ssa.Call); ok && calleeName(c) == "builtin:append" {
+					if b, ok := loadOfFieldNamed(c.Call.Args[0], "Aliases"); ok && b == u.Addr.X {
+						grows = true
+					}
+				}
+				ru.Check(grows, "writer/Aliases/append-only/"+short(fn), w.IPos(st), "Aliases = append(Aliases, …)", "the alias list is rebuilt instead of extended: aliases declared earlier disappear from the help")
+			}
 			base := u.Addr.X
 			ig := buildIG(fn)
 			ok, _ := ig.mustPass(ig.after(u.Instr), func(in ssa.Instruction) bool {
@@ -884,4 +894,215 @@ func rC18Freshness(w *World, r *Report) {
 	}
 	joined := len(callsTo(syn, "strings.Join")) > 0
 	ru.Check(okAll && joined, "Synopsis/aliases", w.IPos(hdr.Instrs[0]), "every alias is listed", "some aliases are left out of the synopsis")
+}
+
+// R17.5: the scans that produce candidates are unconditional within their section, and value candidates are whole-word filtered.
+func rC17Sections(w *World, r *Report) {
+	ru := r.Rule("R17.5", "section structure: for an option-looking last word every path to the return passes the scan over the level's option names; otherwise every path passes the scan over the level's commands and over its static suggestions; candidates built from an option's suggested values are appended inline under strings.HasPrefix(\"--name=value\", typed word) (a helper or a filter on the value part alone is not accepted)", 5)
+	m := parserOrFail(w, ru)
+	if m == nil {
+		return
+	}
+	// the section test: strings.HasPrefix(iterator.Value(), "-") in the completion region
+	var secIf *ssa.If
+	for _, b := range m.fn.Blocks {
+		if !m.inCompletionOnly(b) {
+			continue
+		}
+		if iff, ok := b.Instrs[len(b.Instrs)-1].(*ssa.If); ok {
+			if c, ok := iff.Cond.(*ssa.Call); ok && calleeName(c) == "strings.HasPrefix" && m.fromTyped(c.Call.Args[0]) && isConstStr(c.Call.Args[1], "-") {
+				if secIf == nil || b.Dominates(secIf.Block()) {
+					secIf = iff
+				}
+			}
+		}
+	}
+	if secIf == nil {
+		ru.Undecided("section-test", w.Pos(m.fn.Pos()), "test of the last word for a leading dash not found in the completion block")
+		return
+	}
+	fSug := w.Field("getoptions", "programTree", "Suggestions")
+	isRet := func(in ssa.Instruction) bool { _, ok := in.(*ssa.Return); return ok }
+	scanOf := func(f *types.Var) func(ssa.Instruction) bool {
+		return func(in ssa.Instruction) bool {
+			if rg, ok := in.(*ssa.Range); ok {
+				if b, ok := loadOfField(rg.X, f); ok && b == ssa.Value(m.cursorPhi) {
+					return true
+				}
+			}
+			return false
+		}
+	}
+	sugScan := func(in ssa.Instruction) bool {
+		// header of the rangeindex loop over cursor.Suggestions: its first instruction
+		b := in.Block()
+		if coll := rangeCollectionOfHeader(b); coll != nil && in == b.Instrs[0] {
+			if base, ok := loadOfField(coll, fSug); ok && base == ssa.Value(m.cursorPhi) {
+				return true
+			}
+		}
+		return false
+	}
+	okOpt, _ := m.ig.mustPass(m.ig.edgeStart(secIf.Block(), 0), scanOf(m.fChildOptions), isRet)
+	ru.Check(okOpt, "section/options", w.IPos(secIf), "option-looking word ⇒ the option names of the level are scanned", "for an option-looking word the scan over the level's option names can be skipped")
+	okCmd, _ := m.ig.mustPass(m.ig.edgeStart(secIf.Block(), 1), scanOf(m.fChildCommands), isRet)
+	ru.Check(okCmd, "section/commands", w.IPos(secIf), "plain word ⇒ the commands of the level are scanned", "the scan over the level's commands can be skipped (e.g. when the word already equals a command): other commands with that prefix are not offered")
+	okSug, _ := m.ig.mustPass(m.ig.edgeStart(secIf.Block(), 1), sugScan, isRet)
+	ru.Check(okSug, "section/suggestions", w.IPos(secIf), "plain word ⇒ the static suggestions are scanned", "the static argument suggestions can be skipped")
+	// value candidates
+	n := 0
+	eachInstr(m.fn, func(in ssa.Instruction) {
+		c, ok := in.(*ssa.Call)
+		if !ok || !m.inCompletionOnly(in.Block()) || calleeName(c) != "builtin:append" || typeString(c.Type()) != "[]string" || len(c.Call.Args) != 2 {
+			return
+		}
+		els, spreads, _ := elementsOf(c.Call.Args[1], map[ssa.Value]bool{})
+		for _, sp := range spreads {
+			if call, ok := sp.(*ssa.Call); ok {
+				cn := calleeName(call)
+				if strings.HasPrefix(cn, "dyn:getoptions.ArgCompletionsFn") {
+					continue // the user's own completion function for arguments
+				}
+				ru.Undecided("value-candidates/helper", w.IPos(c), "candidates produced by "+cn+" are appended wholesale: the whole-word prefix filter cannot be established")
+			}
+		}
+		for _, e := range els {
+			p := NewProv(w, m.fn)
+			p.maxDepth = 0
+			p.Slice(e)
+			fromValues := false
+			for _, s := range p.Srcs {
+				if s.Kind == "field" && s.Field != nil && s.Field.Name() == "SuggestedValues" {
+					fromValues = true
+				}
+			}
+			for _, o := range p.Ops {
+				if strings.HasPrefix(o.Kind, "call:dyn:option.ValueCompletionsFn") {
+					fromValues = true
+				}
+			}
+			if !fromValues {
+				continue
+			}
+			// the hint appended after a single candidate (completions[0]+e) is not a candidate filter site
+			hint := false
+			for _, o := range p.Ops {
+				if o.Kind == "binop:+" {
+					hint = true
+				}
+			}
+			if hint {
+				continue
+			}
+			n++
+			guarded := false
+			for _, f := range factsAt(c.Block()) {
+				if f.Op == token.ILLEGAL && f.Truth {
+					if hc, ok := f.X.(*ssa.Call); ok && calleeName(hc) == "strings.HasPrefix" && m.fromTyped(hc.Call.Args[1]) {
+						if sp, ok := hc.Call.Args[0].(*ssa.Call); ok && calleeName(sp) == "fmt.Sprintf" {
+							if f0, ok := constString(sp.Call.Args[0]); ok && f0 == "--%s=%s" {
+								guarded = true
+							}
+						}
+					}
+				}
+			}
+			ru.Check(guarded, "value-candidates/whole-word", w.IPos(c), "appended under HasPrefix(\"--name=value\", typed word)", "a suggested value is offered without comparing the whole `--name=value` with the typed word: values of options whose name is only a prefix of the typed name leak in")
+		}
+	})
+	if n == 0 {
+		ru.Bad("value-candidates", w.Pos(m.fn.Pos()), "no inline value candidates found")
+	}
+}
+
+// R18.8: synopsis arms render through the bracket wrapper only.
+func rC18SynopsisArms(w *World, r *Report) {
+	ru := r.Rule("R18.8", "every arm of the per-option synopsis renders wrap(opt.HelpSynopsis) (plus the constant \"...\"), where wrap is the bracket wrapper chosen from IsRequired: no arm formats brackets on its own", 1)
+	fn := w.Fn("help.Synopsis$1")
+	if fn == nil {
+		ru.Undecided("anchor", "-", "per-option synopsis closure not found")
+		return
+	}
+	eachInstr(fn, func(in ssa.Instruction) {
+		ret, ok := in.(*ssa.Return)
+		if !ok {
+			return
+		}
+		p := NewProv(w, fn)
+		p.maxDepth = 0
+		p.Slice(ret.Results[0])
+		var bad []string
+		for _, o := range p.Ops {
+			switch {
+			case o.Kind == "binop:+":
+			case strings.HasPrefix(o.Kind, "call:dyn:func(s string) string"):
+			case o.Kind == "call:help.wrapFn":
+			case strings.HasPrefix(o.Kind, "unop:!"):
+			default:
+				bad = append(bad, o.Kind+" at "+w.IPos(o.Instr))
+			}
+		}
+		for _, s := range p.Srcs {
+			switch s.Kind {
+			case "const", "zero", "param", "closure":
+			case "field":
+				if s.Field.Name() != "HelpSynopsis" && s.Field.Name() != "IsRequired" {
+					bad = append(bad, "field "+s.Field.Name())
+				}
+			default:
+				bad = append(bad, s.Kind+":"+s.Name)
+			}
+		}
+		if len(bad) == 0 {
+			ru.OK("synopsis-arm/wrap-only", w.IPos(ret), "txt is built from wrap(HelpSynopsis) and constants")
+		} else {
+			ru.Bad("synopsis-arm/wrap-only", w.IPos(ret), "an arm formats the option on its own (required options could appear bracketed): "+strings.Join(dedupe(bad), "; "))
+		}
+	})
+}
+
+// R18.9: the arguments section renders the argument list it was given.
+func rC18Args(w *World, r *Report) {
+	ru := r.Rule("R18.9", "OptionList renders its arguments by ranging over the `args` parameter itself (no per-argument filter): when the section is shown every declared argument is listed once", 1)
+	fn := w.Fn("help.OptionList")
+	if fn == nil {
+		ru.Undecided("anchor", "-", "OptionList not found")
+		return
+	}
+	var args *ssa.Parameter
+	for _, p := range fn.Params {
+		if typeString(p.Type()) == "[]help.SynopsisArg" {
+			args = p
+		}
+	}
+	n := 0
+	for _, h := range loopHeaders(fn) {
+		coll := rangeCollectionOfHeader(h)
+		if coll == nil {
+			continue
+		}
+		renders := false
+		for b := range naturalLoop(h) {
+			for _, in := range b.Instrs {
+				if c, ok := in.(*ssa.Call); ok && strings.HasPrefix(calleeName(c), "dyn:func(arg *help.SynopsisArg)") || ok && calleeName(c) == "help.OptionList$2" {
+					renders = true
+				}
+			}
+		}
+		if !renders {
+			continue
+		}
+		n++
+		okColl := coll == ssa.Value(args)
+		noFilter := true
+		for b := range naturalLoop(h) {
+			if _, ok := b.Instrs[len(b.Instrs)-1].(*ssa.If); ok && b != h {
+				noFilter = false
+			}
+		}
+		ru.Check(okColl && noFilter, "arguments/render-loop", w.IPos(h.Instrs[0]), "range over args, unfiltered", "the ARGUMENTS section is rendered from a filtered copy: some declared arguments are not listed")
+	}
+	if n == 0 {
+		ru.Bad("arguments/render-loop", w.Pos(fn.Pos()), "no loop renders the arguments")
+	}
 }
